@@ -39,6 +39,10 @@ pub enum Op {
     /// `job.control(Control::ContinueTryGracefulRestart)`: a public variant ("internal implementation detail of
     /// TryGracefulRestart") that anybody holding a Job can send: stop the process if there is one, then start afresh
     RawContinue,
+    /// re-entrancy: a marker closure (`run`, or `run_async` that first takes `async_ms`) which, *on the job task*, sends
+    /// `inner` to its own job through a clone of the handle (not awaiting the ticket: that would be a legitimate
+    /// deadlock) and hands the ticket to `inner.waiters` waiter tasks. The inner control's id is `inner_id(own id)`.
+    RunSend { async_ms: Option<u64>, inner: Box<Step> },
 }
 
 impl Op {
@@ -63,6 +67,8 @@ impl Op {
             Op::SetErr { .. } => "set_error_handler",
             Op::UnsetErr => "unset_error_handler",
             Op::RawContinue => "control(ContinueTryGracefulRestart)",
+            Op::RunSend { async_ms: None, .. } => "run",
+            Op::RunSend { .. } => "run_async",
         }
     }
     /// 0 normal, 1 high, 2 urgent
@@ -74,7 +80,24 @@ impl Op {
         }
     }
     pub fn is_marker(&self) -> bool {
-        matches!(self, Op::Run | Op::RunAsync { .. } | Op::RunStall { .. })
+        matches!(self, Op::Run | Op::RunAsync { .. } | Op::RunStall { .. } | Op::RunSend { .. })
+    }
+    /// a marker whose control is complete as soon as the closure has been called (no future to await)
+    pub fn sync_marker(&self) -> bool {
+        matches!(self, Op::Run | Op::RunStall { .. } | Op::RunSend { async_ms: None, .. })
+    }
+    /// virtual time the job task spends inside this marker's closure
+    pub fn marker_ms(&self) -> u64 {
+        match self {
+            Op::RunAsync { ms } | Op::RunStall { ms } | Op::RunSend { async_ms: Some(ms), .. } => *ms,
+            _ => 0,
+        }
+    }
+    pub fn inner(&self) -> Option<&Step> {
+        match self {
+            Op::RunSend { inner, .. } => Some(inner),
+            _ => None,
+        }
     }
     pub fn spawn_capable(&self) -> bool {
         matches!(self, Op::Start | Op::Restart | Op::TryRestart | Op::RestartSig { .. } | Op::TryRestartSig { .. } | Op::RawContinue)
@@ -128,16 +151,41 @@ pub struct E1Scn {
     pub drop_handles: bool,
 }
 
+pub const INNER: u32 = 500_000;
+
 impl E1Scn {
     /// flattened op id: sender * 1000 + step index
     pub fn op_id(sender: usize, step: usize) -> u32 {
         (sender * 1000 + step) as u32
     }
+    /// id of the control a `RunSend` marker sends from inside the job task
+    pub fn inner_id(id: u32) -> u32 {
+        id + INNER
+    }
     pub fn op(&self, id: u32) -> &Step {
+        if id >= INNER {
+            return self.op(id - INNER).op.inner().expect("inner id of a marker that sends nothing");
+        }
         &self.senders[(id / 1000) as usize][(id % 1000) as usize]
     }
     pub fn n_ops(&self) -> usize {
         self.senders.iter().map(|s| s.len()).sum()
+    }
+    /// every control of the scenario, those sent from inside closures included: (id, sender, step index, step)
+    pub fn all_ops(&self) -> Vec<(u32, usize, usize, &Step)> {
+        let mut v = Vec::new();
+        for (si, steps) in self.senders.iter().enumerate() {
+            for (i, st) in steps.iter().enumerate() {
+                v.push((Self::op_id(si, i), si, i, st));
+                if let Some(inner) = st.op.inner() {
+                    v.push((Self::inner_id(Self::op_id(si, i)), si, i, inner));
+                }
+            }
+        }
+        v
+    }
+    pub fn has_reentrant(&self) -> bool {
+        self.senders.iter().flatten().any(|s| s.op.inner().is_some())
     }
     pub fn has_faults(&self) -> bool {
         !self.spawn_fail.is_empty() || self.children.iter().any(|c| c.fail_kill || c.fail_signal || c.fail_wait)
@@ -260,6 +308,37 @@ pub fn issue(job: &Job, op: &Op, id: u32, jobno: u8) -> Ticket {
             })
         }
         Op::UnsetErr => job.unset_error_handler(),
+        Op::RunSend { async_ms, inner } => {
+            let (inner, me, ms) = (inner.clone(), job.clone(), *async_ms);
+            let iid = E1Scn::inner_id(id);
+            // (what the closure does once it is on the job task: one atomic step, logged then queued)
+            let send = move |me: &Job| {
+                log(Ev::CtlSend { job: jobno, sender: 200 + (id / 1000) as u8, op: iid, what: inner.op.name() });
+                let ticket = issue(me, &inner.op, iid, jobno);
+                for w in 0..inner.waiters {
+                    tokio::spawn(waiter(ticket.clone(), iid, w));
+                }
+            };
+            match ms {
+                None => job.run(move |ctx| {
+                    let (cur, prev) = probe(ctx);
+                    log(Ev::MarkerStart { op: id, cur, prev });
+                    send(&me);
+                }),
+                Some(ms) => job.run_async(move |ctx| {
+                    let (cur, prev) = probe(ctx);
+                    log(Ev::MarkerStart { op: id, cur, prev });
+                    Box::new(async move {
+                        if ms > 0 {
+                            sleep_ms(ms).await;
+                        }
+                        send(&me);
+                        drop(me);
+                        log(Ev::MarkerEnd { op: id });
+                    })
+                }),
+            }
+        }
     }
 }
 
@@ -471,16 +550,30 @@ pub fn random_op(rng: &mut Rng, sigs: &mut SigAlloc, weights: &OpWeights) -> Op 
         13 => Op::SetHook { async_ms: if rng.chance(1, 2) { None } else { Some(*rng.pick(&DURS[..5])) } },
         14 => Op::UnsetHook,
         15 => Op::SetErr { async_ms: if rng.chance(1, 2) { None } else { Some(*rng.pick(&DURS[..5])) } },
-        _ => Op::UnsetErr,
+        16 => Op::UnsetErr,
+        _ => {
+            // a closure that sends a control to its own job (never another such closure: one level)
+            let mut w2 = OpWeights(weights.0, false);
+            w2.0[17] = 0;
+            if w2.0.iter().sum::<u64>() == 0 {
+                w2.0[0] = 1;
+            }
+            let inner = random_op(rng, sigs, &w2);
+            let waiters = if rng.chance(1, 2) { rng.range(1, 2) as u8 } else { 0 };
+            Op::RunSend {
+                async_ms: if rng.chance(1, 2) { None } else { Some(*rng.pick(&DURS[..6])) },
+                inner: Box::new(Step { gap: 0, op: inner, waiters, inline: false, cancel_after: None, late_clone: None }),
+            }
+        }
     }
 }
 
-/// weights for the 17 op kinds (swarm: some set to 0 per run)
-pub struct OpWeights(pub [u64; 17], pub bool);
+/// weights for the 18 op kinds (swarm: some set to 0 per run)
+pub struct OpWeights(pub [u64; 18], pub bool);
 
 impl OpWeights {
     pub fn swarm(rng: &mut Rng) -> Self {
-        let base = [8, 5, 4, 3, 6, 4, 4, 3, 5, 1, 1, 8, 3, 2, 1, 2, 1];
+        let base = [8, 5, 4, 3, 6, 4, 4, 3, 5, 1, 1, 8, 3, 2, 1, 2, 1, 3];
         let mut w = base;
         for x in w.iter_mut() {
             if rng.chance(1, 4) {
